@@ -141,6 +141,8 @@ def history_tier(res, tier, seed, shard, scratch):
             with quiet_stdout():
                 for step in range(rng.randint(6, 18)):
                     op = gen_write_op(rng, s.model, prof)
+                    if op.get("ps_form") == "gen_reading":
+                        op["ps_form"] = "gen"  # a source that itself reads the database would be the reader seen here
                     if op["op"] not in ("insert", "insert_multiple"):
                         s.do(op)
                         if rng.random() < 0.5 and s.model.points:
